@@ -32,12 +32,12 @@
 
 //! Builder for item definition evaluators.
 
-use crate::errors::{err_empty_feel_name, err_unsupported_feel_type};
+use crate::errors::{err_empty_feel_name, err_recursive_item_definition, err_unsupported_feel_type};
 use dmntk_common::Result;
 use dmntk_feel::context::FeelContext;
 use dmntk_feel::values::{Value, Values};
 use dmntk_feel::{value_null, AstNode, Evaluator, FeelType, Name, Scope};
-use dmntk_model::model::{Definitions, ItemDefinition, ItemDefinitionType, NamedElement};
+use dmntk_model::model::{Definitions, Expression, ItemDefinition, ItemDefinitionType, NamedElement};
 use std::collections::HashMap;
 
 /// Type of closure that evaluates input data conformant with item definition.
@@ -53,6 +53,7 @@ impl ItemDefinitionEvaluator {
   /// Creates new item definition evaluator.
   pub fn build(&mut self, definitions: &Definitions) -> Result<()> {
     for item_definition in definitions.item_definitions() {
+      check_references(item_definition, definitions, 1)?;
       let evaluator = build_item_definition_evaluator(item_definition)?;
       let type_ref = item_definition.name().to_string();
       self.evaluators.insert(type_ref, evaluator);
@@ -67,6 +68,26 @@ impl ItemDefinitionEvaluator {
   pub fn get(&self, type_ref: &str) -> Option<&ItemDefinitionEvaluatorFn> {
     self.evaluators.get(type_ref)
   }
+}
+
+/// Checks if following the type references of an item definition (and of its components) ends:
+/// a chain of references longer than the number of item definitions visits some item definition twice,
+/// evaluating its type would never end.
+fn check_references(item_definition: &ItemDefinition, definitions: &Definitions, length: usize) -> Result<()> {
+  if length > definitions.item_definitions().len() {
+    return Err(err_recursive_item_definition(item_definition.name()));
+  }
+  if let Some(type_ref) = item_definition.type_ref() {
+    if super::type_ref_to_feel_type(type_ref).is_none() {
+      if let Some(referenced_item_definition) = definitions.item_definition_by_name(type_ref) {
+        check_references(referenced_item_definition, definitions, length + 1)?;
+      }
+    }
+  }
+  for component_item_definition in item_definition.item_components() {
+    check_references(component_item_definition, definitions, length)?;
+  }
+  Ok(())
 }
 
 ///
